@@ -221,15 +221,13 @@ Proof.
   - apply in_alphabet_iff. exact Hn.
 Qed.
 
-Lemma list_split_37 (d : list N) : length d = 37%nat ->
-  d = hd 0 d :: firstn 32 (skipn 1 d) ++ skipn 33 d.
+Lemma firstn_S_nth (l : list N) : forall n, (n < length l)%nat -> firstn (S n) l = firstn n l ++ [nth n l 0].
 Proof.
-  intros Hl. destruct d as [|x d]; [discriminate|]. cbn [hd skipn]. f_equal.
-  symmetry. apply (firstn_skipn 32 d).
+  induction l as [|x l IH]; intros n Hn; [simpl in Hn; lia|].
+  destruct n as [|n]; [reflexivity|].
+  cbn [length] in Hn. change (firstn (S (S n)) (x :: l)) with (x :: firstn (S n) l).
+  rewrite IH by lia. reflexivity.
 Qed.
-
-Lemma firstn_cons_app (x : N) a b n : length a = n -> firstn (S n) (x :: a ++ b) = x :: a.
-Proof. intros <-. cbn [firstn]. f_equal. rewrite firstn_app, Nat.sub_diag, firstn_all, firstn_O, app_nil_r. reflexivity. Qed.
 
 Theorem encode_decode s w : decode_wif s = Ok w -> wif_string w = s.
 Proof.
@@ -240,38 +238,25 @@ Proof.
   rewrite <- (Base58Proofs.encode_decode s (decode_nonempty_alphabet s Hne)).
   revert H Hb. generalize (Base58.decode s) as d. intros d [Hlen [Hck [Hn Hd]]] Hb.
   unfold wif_string, wif_payload. rewrite tie_str_ck_take, tie_priv_len, tie_magic, Hn, Hd. f_equal.
-  assert (Hbk : Bytes (firstn 32 (skipn 1 d))).
-  { unfold Bytes in *. rewrite <- (firstn_skipn 1 d) in Hb. apply Forall_app in Hb as [_ Hb].
+  set (kb := firstn 32 (skipn 1 d)) in *.
+  assert (Hbk : Bytes kb).
+  { unfold kb, Bytes in *. rewrite <- (firstn_skipn 1 d) in Hb. apply Forall_app in Hb as [_ Hb].
     rewrite <- (firstn_skipn 32 (skipn 1 d)) in Hb. apply Forall_app in Hb. tauto. }
-  assert (Hlk : length (firstn 32 (skipn 1 d)) = 32%nat).
-  { rewrite firstn_length, skipn_length. destruct Hlen as [[E _]|[E _]]; rewrite E; reflexivity. }
-  assert (Hpad : pad_to 32 (big_bytes (set_bytes (firstn 32 (skipn 1 d)))) = firstn 32 (skipn 1 d)).
+  assert (Hlk : length kb = 32%nat).
+  { unfold kb. rewrite firstn_length, skipn_length. destruct Hlen as [[E _]|[E _]]; rewrite E; reflexivity. }
+  assert (Hpad : pad_to 32 (big_bytes (set_bytes kb)) = kb).
   { rewrite <- Hlk at 1. apply pad_value. exact Hbk. }
   rewrite Hpad.
+  assert (Hf33 : firstn 33 d = hd 0 d :: kb).
+  { unfold kb. destruct d as [|x d]; [destruct Hlen as [[E _]|[E _]]; discriminate|]. reflexivity. }
   destruct Hlen as [[E37 ->]|[E38 [Em ->]]].
   - rewrite E37 in Hck. change (37 - 4)%nat with 33%nat in Hck.
-    rewrite (list_split_37 d E37) at 3. cbn [app]. f_equal.
-    rewrite app_nil_r. f_equal. rewrite Hck. f_equal. f_equal.
-    rewrite (list_split_37 d E37) at 1. apply firstn_cons_app. exact Hlk.
+    rewrite app_nil_r. change ([hd 0 d] ++ kb) with (hd 0 d :: kb).
+    rewrite <- Hf33, <- Hck. apply firstn_skipn.
   - rewrite E38 in Hck. change (38 - 4)%nat with 34%nat in Hck.
-    destruct d as [|x d]; [discriminate|]. cbn [hd skipn] in *. cbn [app]. f_equal.
-    injection E38 as E37'.
-    (* d = firstn 32 d ++ [nth 32 d 0] ++ skipn 33 d *)
-    assert (Hsplit : d = firstn 32 d ++ [1] ++ skipn 33 d).
-    { rewrite <- (firstn_skipn 32 d) at 1. f_equal.
-      change (nth 33 (x :: d) 0) with (nth 32 d 0) in Em.
-      rewrite <- (firstn_skipn 32 d) in Em. rewrite app_nth2 in Em by (rewrite Hlk; lia).
-      rewrite Hlk, Nat.sub_diag in Em.
-      destruct (skipn 32 d) as [|m r] eqn:Es.
-      { exfalso. apply (f_equal (@length N)) in Es. rewrite skipn_length in Es. simpl in Es. lia. }
-      cbn [nth] in Em. subst m. cbn [app]. f_equal.
-      change 33%nat with (1 + 32)%nat. rewrite <- skipn_skipn, Es. reflexivity. }
-    rewrite Hsplit at 3. rewrite <- app_assoc. f_equal. cbn [app]. f_equal.
-    rewrite Hck. f_equal. f_equal.
-    rewrite Hsplit at 1. cbn [firstn]. f_equal.
-    change 33%nat with (32 + 1)%nat at 1.
-    rewrite firstn_app, Hlk. replace (32 + 1 - 32)%nat with 1%nat by lia.
-    rewrite firstn_all2 by lia. reflexivity.
+    assert (Hf34 : firstn 34 d = [hd 0 d] ++ kb ++ [1]).
+    { rewrite firstn_S_nth by lia. rewrite Hf33, Em. reflexivity. }
+    rewrite <- Hf34, <- Hck. apply firstn_skipn.
 Qed.
 
 (* ---------- public key ---------- *)
